@@ -26,6 +26,14 @@ pub struct Case14 {
     /// decode under other options, ...)
     #[serde(default)]
     pub reentry: Option<(u32, Nested)>,
+    /// before the nine receivers look at the delivery, the same octets are
+    /// decoded `count` times under option set `opts` (8 = `try_read`): a
+    /// receiver that has been busy with this very traffic for a while
+    #[serde(default)]
+    pub soak: Option<(u32, u8)>,
+    /// which of the nine receivers goes first (the others follow in order)
+    #[serde(default)]
+    pub first: u8,
 }
 
 type R = Result<SpecMessage, Vec<DecodeError>>;
@@ -57,17 +65,27 @@ fn exec_c14(case: &Case14, obs: &mut Obs) -> Result<(), Failure> {
         }
         None => ReaderCfg::Real,
     };
-    let mut res: Vec<R> = Vec::with_capacity(8);
-    for i in 0..8u8 {
-        match decode_msg(&b, Some(Opts::from_index(i)), &rcfg, false) {
-            Ok(o) => res.push(o.result),
+    if let Some((count, o)) = case.soak {
+        obs.count("probe:receivers-after-a-run-of-identical-decodes");
+        let opts = if o < 8 { Some(Opts::from_index(o)) } else { None };
+        for _ in 0..count {
+            if decode_msg(&b, opts, &ReaderCfg::Real, false).is_err() {
+                return Ok(());
+            }
+        }
+    }
+    // nine receivers, starting with `first`
+    let mut slots: Vec<Option<R>> = (0..9).map(|_| None).collect();
+    for k in 0..9u8 {
+        let i = (case.first % 9 + k) % 9;
+        let opts = if i < 8 { Some(Opts::from_index(i)) } else { None };
+        match decode_msg(&b, opts, &rcfg, false) {
+            Ok(o) => slots[i as usize] = Some(o.result),
             Err(_) => return Ok(()), // totality: C01
         }
     }
-    let dflt = match decode_msg(&b, None, &rcfg, false) {
-        Ok(o) => o.result,
-        Err(_) => return Ok(()),
-    };
+    let dflt = slots.pop().flatten().unwrap();
+    let res: Vec<R> = slots.into_iter().map(|x| x.unwrap()).collect();
     let at = |o: Opts| &res[o.index() as usize];
     // default entry point = version checking alone
     if !same(&dflt, at(Opts::DEFAULT)) {
@@ -329,6 +347,16 @@ impl Scenario for C14 {
                     } else {
                         None
                     },
+                    soak: if sm.chance(1, 40) {
+                        // counts around the powers of two a saturating or
+                        // wrapping counter would trip over
+                        let k = *sm.pick(&[4u32, 8, 10, 12, 14, 15, 16]);
+                        let n = ((1u32 << k) as i64 + *sm.pick(&[-1i64, 0, 1, 1, 2])) as u32;
+                        Some((n, sm.below(9) as u8))
+                    } else {
+                        None
+                    },
+                    first: sm.below(9) as u8,
                 };
                 ctx.obs.distinct(mix2(*w as u64, fnv1a(body)));
                 ctx.obs.count("fault:set-flag-word");
@@ -351,12 +379,32 @@ impl Scenario for C14 {
                 ..case.clone()
             });
         }
+        if let Some((n, o)) = case.soak {
+            out.push(Case14 {
+                soak: None,
+                ..case.clone()
+            });
+            for m in [n / 2, n - 1] {
+                if m > 0 && m < n {
+                    out.push(Case14 {
+                        soak: Some((m, o)),
+                        ..case.clone()
+                    });
+                }
+            }
+        }
+        if case.first != 0 {
+            out.push(Case14 {
+                first: 0,
+                ..case.clone()
+            });
+        }
         for i in 0..16 {
             if case.flags & (1 << i) != 0 {
                 out.push(Case14 {
                     flags: case.flags & !(1 << i),
                     body: case.body.clone(),
-                    reentry: case.reentry.clone(),
+                    ..case.clone()
                 });
             }
         }
@@ -364,7 +412,7 @@ impl Scenario for C14 {
             out.push(Case14 {
                 flags: case.flags,
                 body: b,
-                reentry: case.reentry.clone(),
+                ..case.clone()
             });
         }
         out
